@@ -2,6 +2,8 @@ import Driver.Util
 import Sqfs.Spec.TarNumber
 import Sqfs.Model.TarSparse
 import Sqfs.Model.TarConv
+import Sqfs.Model.TarFix
+import Sqfs.Spec.TarHeader
 namespace Driver.C04
 open Sqfs.Tar
 
@@ -65,6 +67,17 @@ def parseEnc (ws : List String) : Option (WEntry × Option Bytes × List (Bytes 
             hardLink := fl / 2 % 2 = 1 }, tg, xs, cn)
   | _ => none
 
+def showRead (s : Bytes) : ReadResult → String
+  | .eof => "eof"
+  | .err => "err"
+  | .ok d rest => "ok " ++ showDecoded d ++ s!" consumed={s.length - rest.length}"
+
+/-- `enc` followed by `dec` on the writer's output + 1024 zero bytes (what `rt` does on the real code) -/
+def roundTrip (w : Option Bytes) (cfg : ReadCfg) : String :=
+  match w with
+  | none => "err -"
+  | some b => let s := b ++ zeros 1024; showRead s (readHeaderWith cfg s)
+
 def showIter (es : List IterEntry) (e : IterEnd) : String :=
   let one (x : IterEntry) : String :=
     s!"name={toHexTok x.name} mode={octStr x.mode} flags={if x.hardLink then 2 else 0} uid={x.uid} gid={x.gid} mtime={x.mtime} size={x.size}" ++
@@ -76,21 +89,6 @@ def showIter (es : List IterEntry) (e : IterEnd) : String :=
        | .eof => " data=" ++ (if r.out.length > 8192 then "big" else toHexTok r.out) ++ s!" len={r.out.length}")
   let body := " | ".intercalate (es.map one)
   (if es.isEmpty then "" else body ++ " | ") ++ (if e = .eof then "end=1" else "end=-1")
-
-/-- fold of `process_tarball` over the iterator's entries on the flat tree; `none` = tar2sqfs fails -/
-def convertWith (pe : ConvOpts → CEntry → Action) (o : ConvOpts) (es : List IterEntry) : Option (List TNode × List (List Bytes × Nat × Nat)) :=
-  es.foldl (fun acc x => match acc with
-    | none => none
-    | some (t, devs) =>
-      let link := if fmt x.mode = S_IFLNK then x.link else none
-      if fmt x.mode = S_IFLNK ∧ link.isNone then none                      -- `read_link` fails: no target
-      else
-      match pe o ⟨x.name, x.mode, x.uid, x.gid, x.mtime, x.hardLink, link, x.devMajor, x.devMinor⟩ with
-      | .skip => some (t, devs)
-      | .root e => if e.hardLink ∨ fmt e.mode ≠ S_IFDIR ∨ e.uid > 0xFFFFFFFF ∨ e.gid > 0xFFFFFFFF then none else some (t, devs)
-      | .node e => match addGeneric o t e with
-        | none => none
-        | some t' => some (t', devs ++ [(Sqfs.Path.splitSlash e.name, x.devMajor, x.devMinor)])) (some ([], []))
 
 def describeNode (devs : List (List Bytes × Nat × Nat)) (n : TNode) : String :=
   let path := toHexTok (Sqfs.Path.joinSlash n.path)
@@ -131,19 +129,30 @@ def step (line : String) : String :=
       | some b => "ok " ++ toHexTok b
       | none => "err -"
     | none => "bad-op"
+  | "encraw" :: ws => match parseEnc ws with                      -- xattr keys copied verbatim (before fixes/C04-xattr-key-escape.patch)
+    | some (e, tg, xs, cn) => match writeTarHeaderRawKeys e tg xs cn with
+      | some b => "ok " ++ toHexTok b
+      | none => "err -"
+    | none => "bad-op"
+  | "rt" :: ws => match parseEnc ws with                          -- model-level round trip: write_tar_header, then read_header
+    | some (e, tg, xs, cn) => roundTrip (writeTarHeader e tg xs cn) {}
+    | none => "bad-op"
+  | "rtraw" :: ws => match parseEnc ws with                       -- … of the code before fixes/C04-xattr-key-escape.patch
+    | some (e, tg, xs, cn) => roundTrip (writeTarHeaderRawKeys e tg xs cn) { schilyKeyDecode := false }
+    | none => "bad-op"
+  | "rtspec" :: ws => match parseEnc ws with                      -- the specification: what the round trip must deliver (`decodedOf`)
+    | some (e, tg, xs, cn) => match writeTarHeader e tg xs cn with
+      | some b => "ok " ++ showDecoded (decodedOf e tg xs.reverse) ++ s!" consumed={b.length}"
+      | none => "err -"
+    | none => "bad-op"
   | "enccur" :: ws => match parseEnc ws with
     | some (e, tg, xs, cn) =>
       let (b, ok) := writeTarHeaderCur e tg xs cn
       (if ok then "ok " else "err ") ++ toHexTok b
     | none => "bad-op"
-  | ["dec", h] => withHex h fun s => match readHeader s with
-    | .eof => "eof"
-    | .err => "err"
-    | .ok d rest => "ok " ++ showDecoded d ++ s!" consumed={s.length - rest.length}"
-  | ["decx", r, k, h] => withHex h fun s => match readHeaderWith { rejectOversizedMap := r = "1", xattrKeepOrder := k = "1" } s with
-    | .eof => "eof"
-    | .err => "err"
-    | .ok d rest => "ok " ++ showDecoded d ++ s!" consumed={s.length - rest.length}"
+  | ["dec", h] => withHex h fun s => showRead s (readHeader s)
+  | ["decx", r, k, d, h] => withHex h fun s =>
+    showRead s (readHeaderWith { rejectOversizedMap := r = "1", xattrKeepOrder := k = "1", schilyKeyDecode := d = "1" } s)
   | ["canonip", h] => withHex h fun s => let (b, ok) := canonInPlace s; (if ok then "0 " else "-1 ") ++ toHexTok b
   | [op, rb, sflag, kflag, dmt, duid, dgid, dmode, h] =>
     if op ≠ "t2s" ∧ op ≠ "t2scur" then "bad-op" else
@@ -158,8 +167,8 @@ def step (line : String) : String :=
         | some (t, devs) => if storable t then "ok " ++ ";".intercalate (t.map (describeNode devs)) else "fail"
     | _, _, _, _, _, _ => "bad-op"
   | ["iter", h] => withHex h fun s => let (es, e) := iterate s; showIter es e
-  | ["iterx", r, k, h] => withHex h fun s =>
-    let (es, e) := iterateWith { rejectOversizedMap := r = "1", xattrKeepOrder := k = "1" } s; showIter es e
+  | ["iterx", r, k, d, h] => withHex h fun s =>
+    let (es, e) := iterateWith { rejectOversizedMap := r = "1", xattrKeepOrder := k = "1", schilyKeyDecode := d = "1" } s; showIter es e
   | _ => "bad-op"
 
 def run (_args : List String) : IO Unit := do
